@@ -131,7 +131,7 @@ func (r *ref) step(f []string, op, o string) fw.Verdict {
 		r.index[f[1]+"|"+f[2]] = f[1]
 		r.written[k] += n
 		r.dirty[k] = true
-	case "snap":
+	case "snap", "snaprelease":
 		for k := range r.dirty {
 			r.files[k]++
 		}
